@@ -202,10 +202,12 @@ class _BaseLayout(MaildirLayout[_MaildirT], metaclass=ABCMeta):
 
     def add_folder(self, name: str, delimiter: str) -> None:
         parts = self._split(name, delimiter)
-        for i in range(1, len(parts) - 1):
-            path = self._get_path(parts[0:i])
-            if not os.path.isdir(path):
-                raise FileNotFoundError(path)
+        for i in range(1, len(parts)):
+            if not os.path.isdir(self._get_path(parts[0:i])):
+                self._add_folder(parts[0:i])
+        self._add_folder(parts)
+
+    def _add_folder(self, parts: _Parts) -> None:
         path = self._get_path(parts)
         self._maildir(path, create=True)
         maildirfolder = os.path.join(path, 'maildirfolder')
@@ -230,12 +232,11 @@ class _BaseLayout(MaildirLayout[_MaildirT], metaclass=ABCMeta):
                       delimiter: str) -> None:
         source_parts = self._split(source_name, delimiter)
         dest_parts = self._split(dest_name, delimiter)
-        for i in range(1, len(dest_parts) - 1):
+        for i in range(1, len(dest_parts)):
             parts = dest_parts[0:i]
             path = self._get_path(parts)
             if not os.path.isdir(path):
-                name = self._join(parts, delimiter)
-                self.add_folder(name, delimiter)
+                self._add_folder(parts)
         self._rename_folder(source_parts, dest_parts)
 
 
